@@ -52,10 +52,20 @@ def build(tier):
     # bundle_t::solve: the analytic branches (1 and 2 entries); the n = 3 minimiser identity takes 10-30 s: thorough tier
     for n, m in ((2, 1), (1, 2), (2, 2)) + (((3, 2),) if thorough else ()):
         jobs.append(guarded(lambda n=n, m=m: bundle_num.solve_vcs(n, m, cap, info), f'bundle solve n={n} m={m}'))
+    # a walk that leaves the shape its contract is written for (e.g. under a change of the library that the CBMC targets
+    # refute) makes THAT family undecided, not the whole property: the other targets are still built and run
     bounded = []
-    for r in [j() for j in jobs]:
-        bounded += r
+    build.undecided = []
+    for j in jobs:
+        try:
+            bounded += j()
+        except astload.ExtractionError as e:
+            what = str(e).split(':')[0]
+            build.undecided.append((what, str(e)))
     seen = {}
     for f in info:
         seen[f['c_name']] = f
     return [], bounded, list(seen.values())
+
+
+build.undecided = []
